@@ -34,6 +34,7 @@ func runC07(e *Env) {
 	r.Rule("C07.R5", "absint", "frame length cannot wrap", 17)
 	r.Rule("C07.R6", "flows", "Run appends exactly the bytes read", 1)
 	r.Rule("C07.R7", "paths", "synchronous in-order hand-over; signals inline", 3)
+	r.Rule("C07.R8", "absint+flows", "the sender's length header is what the receiver's framing reads back (all length classes); the configured size limit reaches the framing loop", 12)
 
 	pb := e.fn("C07.R1", "tcp/client.Session.processBuffer")
 	if pb != nil {
@@ -52,6 +53,16 @@ func runC07(e *Env) {
 	}
 	if e.want("C07.R7") {
 		c07Handover(e, pb)
+	}
+	if e.want("C07.R8") {
+		// same obligation as C01.R1's stream part: a frame whose announced length differs from its real length desynchronises the stream
+		c01StreamLength(e, "C07.R8")
+		checkConfigCopy(e, "C07.R8", "tcp/server.Server.createConn", []string{"MaxMessageSize", "ConnectionCacheSize"})
+		checkArgPlumbing(e, "C07.R8", []argPlumb{
+			{"tcp/client.NewConnWithOpts", "tcp/client.NewSession", "maxMessageSize", "MaxMessageSize"},
+			{"tcp/client.NewConnWithOpts", "tcp/client.NewSession", "connectionCacheSize", "ConnectionCacheSize"},
+		})
+		checkCtorInit(e, "C07.R8", "tcp/client.NewSession", map[string]string{"maxMessageSize": "maxMessageSize", "connectionCacheSize": "connectionCacheSize"})
 	}
 }
 
